@@ -231,10 +231,17 @@ fn run_board(prop: Prop, tier: Tier) -> i32 {
             list.push(Box::new(Material::new(sig)));
         }
     }
+    let mut hash_obs = (0u64, 0u64);
     for f in list.iter() {
         let t0 = Instant::now();
         let n = for_family(f.as_ref(), &|p| visit(&ctx, p));
         fams.push(json!({"family": f.name(), "index_space": f.len(), "legal_members": n, "secs": t0.elapsed().as_secs_f64()}));
+        if prop == Prop::C06 && tier == Tier::Thorough && f.len() > 2 * 64u64.pow(3) {
+            // memory: the big 4-piece families are judged (function of key, injective) one by one
+            let (t, d) = c06_finish(&ctx);
+            hash_obs.0 += t;
+            hash_obs.1 += d;
+        }
     }
     for f in [&castle as &dyn Family, &ep, &promo] {
         let t0 = Instant::now();
@@ -297,7 +304,7 @@ fn run_board(prop: Prop, tier: Tier) -> i32 {
         let variants: u64 = par_map(&vs, |p| c06_variants(&ctx, p)).iter().sum();
         fams.push(json!({"family": format!("single-component variants of REACH({})", vdepth), "states": vs.len(), "variants": variants, "secs": t0.elapsed().as_secs_f64()}));
         let (total, distinct) = c06_finish(&ctx);
-        fams.push(json!({"family": "hash as function of key / injective on explored set", "observations": total, "distinct_keys": distinct}));
+        fams.push(json!({"family": "hash as function of key / injective on explored set (big 4-piece families judged one by one)", "observations": total + hash_obs.0, "distinct_keys": distinct + hash_obs.1}));
     }
 
     let mut cov = Coverage::new();
